@@ -1,3 +1,4 @@
+import IsobarV.Static.Drv
 import IsobarV.Event.Drv
 import IsobarV.Interp.Drv
 import IsobarV.Clock.Drv
@@ -21,4 +22,5 @@ def main (args : List String) : IO UInt32 := do
   | ["clock"] => IsobarV.Clock.Drv.main; return 0
   | ["interp"] => IsobarV.Interp.Drv.main; return 0
   | ["event"] => IsobarV.Event.Drv.main; return 0
+  | ["static"] => IsobarV.Static.Drv.main; return 0
   | _ => IO.eprintln s!"usage: driver <suite>; unknown: {args}"; return 2
